@@ -46,6 +46,7 @@ class Disk:
         self.fired = []  # (kind, detail) of faults that actually fired in the current operation
         self.hasher = hashlib.sha256()
         self.active = False  # seam routes to the simulator only while tool code runs
+        self.opaque = set()  # relative paths of harness-written files that embed the scratch root's random name
 
     # -- bookkeeping -------------------------------------------------------
     def begin_op(self, faults):
@@ -113,7 +114,7 @@ class Disk:
         return hit, ev
 
     def _finish(self, ev, data=None, result=None, length=None):
-        if data is not None:
+        if data is not None and ev[1] not in self.opaque:
             ev[4] = hashlib.sha256(data).hexdigest()[:16]
         if result is not None:
             ev[5] = result
